@@ -95,10 +95,11 @@ def gen_obj(rnd, idx):
     for i in range(nen):
         if len(pool) < 2:
             break
-        vals = [pool.pop() for _ in range(2)]      # at least two own values: a single-valued enum variable is exposed as the value itself
         incl = []
         if enums and rnd.random() < 0.5:
             incl = [rnd.choice(sorted(enums))]
+        # at least two values in total: a single-valued enum variable is exposed as the value itself; an enum with ONE own value may include others
+        vals = [pool.pop() for _ in range(1 if incl and rnd.random() < 0.5 else 2)]
         enums["E%d" % i] = (vals, incl)
 
     def enum_vals(e):
